@@ -251,6 +251,8 @@ def chk_triple(repo, rng, tier, tmp, want_keyspace):
             continue
         sc = OmenScorer(base, 'utf-8', 10)
         cands = set(words) | set(list(emitted)[:400]) | {'zz', 'a', 'abcd' * 6, 'abcé', 'passwor', 'x' * ngram, 'y' * (ngram - 1)}
+        # strings that start with an n-gram seen only in the middle or at the end of training passwords
+        cands |= {w[i:] for w in set(words) for i in range(1, max(1, len(w) - ngram + 1))}
         for s in sorted(cands):
             t = find_level(tr, s)
             k = sc.parse(s)
